@@ -38,6 +38,45 @@ def observe():
         except Exception:
             pass
         ev.append({"ev": "Status", "name": k, "value": int(getattr(ec.SCSI_STATUS, k))})
+    # an application adapts ONE set to a quirky device through the public API (the value setter of an entry, add /
+    # remove on its service-action table): the entries of the same name in the OTHER sets still say what T10 says
+    for s in SETS:
+        table = getattr(ec, s)
+        for name in list(table.keys):
+            op = getattr(table, name)
+            sa = op.serviceaction
+            old = int(op.value)
+            removed = None
+            try:
+                op.value = (old + 0x51) & 0xFF
+                if sa is not None and len(list(sa.keys)):
+                    k0 = list(sa.keys)[0]
+                    removed = (k0, getattr(sa, k0))
+                    sa.remove(k0)
+                    sa.add("VENDOR_QUIRK", 0x1F)
+                for s2 in SETS:
+                    t2 = getattr(ec, s2)
+                    if s2 == s or name not in t2.keys:
+                        continue
+                    op2 = getattr(t2, name)
+                    ev.append({"ev": "Lookup", "set": s2, "name": name, "value": int(op2.value)})
+                    sa2 = op2.serviceaction
+                    for k in (sa2.keys if sa2 is not None else []):
+                        ev.append({"ev": "SA", "set": s2, "op": name, "opvalue": int(op2.value), "name": k,
+                                   "value": int(getattr(sa2, k))})
+                    if removed is not None and sa2 is not None and (removed[0] not in sa2.keys or "VENDOR_QUIRK" in sa2.keys):
+                        # the other set's service-action table lost / gained a name: reported as an entry that no
+                        # longer has its T10 meaning (999 is no operation code)
+                        ev.append({"ev": "Lookup", "set": s2, "name": name, "value": 999})
+            finally:
+                op.value = old
+                if removed is not None:
+                    try:
+                        sa.remove("VENDOR_QUIRK")
+                    except Exception:
+                        pass
+                    if removed[0] not in sa.keys:
+                        sa.add(removed[0], removed[1])
     for v in range(256):
         o = opc.OpCode("X", v, {"a": 1})
         try:
